@@ -510,37 +510,55 @@ func (tb *TB) ModF(a *Term, c *big.Int) *Term {
 	return t
 }
 
-// BitOp builds a bitwise and/or/xor of two terms known to lie in [0, 2^32); nil otherwise.
+// BitOp builds a bitwise and/or/xor of two terms with known bounds inside int32/uint32 (or, when a
+// bound is negative, inside int32: two's complement, signed result); nil otherwise.
 func (tb *TB) BitOp(op Op, a, b *Term) *Term {
-	if a.lo == nil || b.lo == nil || a.hi == nil || b.hi == nil || a.lo.Sign() < 0 || b.lo.Sign() < 0 {
+	if a.lo == nil || b.lo == nil || a.hi == nil || b.hi == nil {
 		return nil
 	}
+	signed := a.lo.Sign() < 0 || b.lo.Sign() < 0
 	mx := a.hi
 	if b.hi.Cmp(mx) > 0 {
 		mx = b.hi
 	}
-	w := mx.BitLen()
-	if w > 32 {
-		return nil
-	}
 	width := uint8(8)
-	for int(width) < w {
-		width *= 2
+	if signed {
+		lo32, hi32 := cachedTypeRange(32, true)
+		mn := a.lo
+		if b.lo.Cmp(mn) < 0 {
+			mn = b.lo
+		}
+		if mn.Cmp(lo32) < 0 || mx.Cmp(hi32) > 0 {
+			return nil
+		}
+		width = 32
+	} else {
+		w := mx.BitLen()
+		if w > 32 {
+			return nil
+		}
+		for int(width) < w {
+			width *= 2
+		}
 	}
 	if a.id > b.id {
 		a, b = b, a
 	}
-	t := tb.mk(&Term{op: op, sort: SInt, a: a, b: b, bits: width}, tkey{op: op, a: a.id, b: b.id})
+	t := tb.mk(&Term{op: op, sort: SInt, a: a, b: b, bits: width, signed: signed}, tkey{op: op, a: a.id, b: b.id})
 	if t.lo == nil && t.hi == nil {
-		t.lo = big.NewInt(0)
-		if op == OBitAnd {
+		switch {
+		case signed:
+			t.lo, t.hi = cachedTypeRange(32, true)
+		case op == OBitAnd:
+			t.lo = big.NewInt(0)
 			h := a.hi
 			if b.hi.Cmp(h) < 0 {
 				h = b.hi
 			}
 			t.hi = h
-		} else {
-			t.hi = new(big.Int).Sub(new(big.Int).Lsh(big.NewInt(1), uint(w)), big.NewInt(1))
+		default:
+			t.lo = big.NewInt(0)
+			t.hi = new(big.Int).Sub(new(big.Int).Lsh(big.NewInt(1), uint(mx.BitLen())), big.NewInt(1))
 		}
 	}
 	return t
